@@ -127,8 +127,12 @@ func TestProp_DataURI(t *testing.T) {
 				rapid.Custom(func(t *rapid.T) string { return token(t, "type", 1, 6) + "/" + token(t, "subtype", 1, 8) })).Draw(t, "mediatype")
 			for n := rapid.IntRange(0, 2).Draw(t, "nparams"); n > 0; n-- {
 				k, v := token(t, "key", 1, 6), token(t, "value", 1, 6)
-				if strings.EqualFold(k, "base64") || strings.EqualFold(v, "base64") {
-					k, v = "k", "v"
+				if strings.EqualFold(v, "base64") {
+					v = "v" // a VALUE spelled base64 in front of the comma is indistinguishable from the marker
+				}
+				if rapid.IntRange(0, 5).Draw(t, "reservedkey") == 0 {
+					// the marker word as the NAME of an ordinary parameter (it is followed by '=', not by ';' or ',')
+					k = rapid.SampledFrom([]string{"base64", "base64", "charset", "base64x", "xbase64"}).Draw(t, "rkey")
 				}
 				mt += ";" + k + "=" + v
 			}
@@ -221,7 +225,7 @@ func TestProp_DataURIAny(t *testing.T) {
 }
 
 func TestProp_Mediatype(t *testing.T) {
-	ev.Describe("mediatype", "type/subtype(;[ ]*key=value)* from RFC token characters, no trailing ';', distinct keys, unquoted non-empty values, optional leading spaces; oracle: mime.ParseMediaType (type and keys compared case-insensitively, values exactly); non-trivial = >= 1 parameter")
+	ev.Describe("mediatype", "type/subtype([ ]*;[ ]*key=value)*[ ]* from RFC token characters, no trailing ';', distinct keys, unquoted non-empty values, optional leading spaces; oracle: mime.ParseMediaType (type and keys compared case-insensitively, values exactly); non-trivial = >= 1 parameter")
 	ev.Check(t, 30000, func(t *rapid.T) {
 		typ := token(t, "type", 1, 8) + "/" + token(t, "subtype", 1, 10)
 		s := strings.Repeat(" ", rapid.IntRange(0, 2).Draw(t, "lead")) + typ
@@ -233,8 +237,9 @@ func TestProp_Mediatype(t *testing.T) {
 				continue
 			}
 			keys[strings.ToLower(k)] = true
-			s += ";" + strings.Repeat(" ", rapid.IntRange(0, 2).Draw(t, "sp")) + k + "=" + token(t, "value", 1, 8)
+			s += strings.Repeat(" ", rapid.SampledFrom([]int{0, 0, 0, 1, 2, 3}).Draw(t, "spbefore")) + ";" + strings.Repeat(" ", rapid.IntRange(0, 3).Draw(t, "sp")) + k + "=" + token(t, "value", 1, 8)
 		}
+		s += strings.Repeat(" ", rapid.SampledFrom([]int{0, 0, 0, 1, 2}).Draw(t, "trail"))
 		wantType, wantParams, err := mime.ParseMediaType(s)
 		if err != nil {
 			t.Skip("the reference rejects it") // e.g. RFC 2231 continuations key*0: outside "well-formed unquoted values"
